@@ -42,7 +42,7 @@ Connect(st, op, D) ==
       createdDb == st.cd /\ hasdb /\ db \notin st.dbs
       dbs1 == IF createdDb THEN st.dbs \cup {db} ELSE st.dbs
       \* attaching a database that has a file brings its schemas back
-      sch0 == IF createdDb /\ onDisk THEN st.schemas \cup {<<db, s>> : s \in Sc} ELSE st.schemas
+      sch0 == IF createdDb /\ onDisk THEN st.schemas \cup {<<db, s>> : s \in Sc \cap {"S_1"}} ELSE st.schemas
       db1 == db \in dbs1
       userSc == sc \notin {NONE, INFO}
       createdSc == st.cs /\ hasdb /\ userSc /\ db1 /\ <<db, sc>> \notin sch0
@@ -68,11 +68,16 @@ Steps(st, op, D) ==
          IN {R(s2, Obs("ok", <<NONE, NONE>>, "none", s2))}
     [] op.k = "mkdb" ->      \* CREATE DATABASE d through a session without context
          LET s2 == [st EXCEPT !.dbs = @ \cup {op.db},
-                              !.schemas = IF op.db \in st.disk THEN @ \cup {<<op.db, s>> : s \in Sc} ELSE @,
+                              !.schemas = IF op.db \in st.disk THEN @ \cup {<<op.db, s>> : s \in Sc \cap {"S_1"}} ELSE @,
                               !.disk = IF st.storage # "memory" THEN @ \cup {op.db} ELSE @]
          IN {R(s2, Obs("ok", <<NONE, NONE>>, "none", s2))}
     [] op.k = "mksc" ->      \* CREATE SCHEMA d.s (fully qualified)
          LET s2 == [st EXCEPT !.schemas = @ \cup {<<op.db, op.sc>>}] IN {R(s2, Obs("ok", <<NONE, NONE>>, "none", s2))}
+    [] op.k = "rmsc" ->      \* the sessions whose current schema is d.s are closed (and forgotten), then DROP SCHEMA d.s:
+                             \* "prior state: the schema exists or not" includes "existed, was connected to, exists no longer"
+         LET s2 == [st EXCEPT !.schemas = @ \ {<<op.db, op.sc>>},
+                              !.sess = SelectSeq(@, LAMBDA m : ~(m.rdb = op.db /\ m.rsc = op.sc))]
+         IN {R(s2, Obs("ok", <<NONE, NONE>>, "none", s2))}
     [] op.k = "connect" -> Connect(st, op, D)
 
 \* ---- vocabulary ----
@@ -86,6 +91,9 @@ Ops(st) ==
         ELSE {})
        \cup {o \in [k : {"mkdb"}, db : Db] : o.db \notin st.dbs}
        \cup {o \in [k : {"mksc"}, db : Db, sc : Sc] : o.db \in st.dbs /\ <<o.db, o.sc>> \notin st.schemas}
+       \* (not the schema that holds the table the earlier instance left: "kept" is about connect, not about DROP)
+       \cup {o \in [k : {"rmsc"}, db : Db, sc : Sc] : <<o.db, o.sc>> \in st.schemas
+                                                      /\ ~(st.storage = "path_existing" /\ o.db = DiskDb /\ o.sc = "S_1")}
 
 \* ---- C14 on the model ----
 StepOk(st, op, r) ==
